@@ -2,4 +2,4 @@ From Coq Require Extraction.
 From Coq Require Import ExtrOcamlBasic.
 From CatV Require Import Bytes Defs Codec Fsm Script Search.
 Extraction Language OCaml.
-Extraction "catmodel_ext" sstep sinit srun st tr hs io mu search_command_by_name search_variable_by_name.
+Extraction "catmodel_ext" sstep sinit srun st tr hs io mu search_command_by_name search_variable_by_name search_group_by_name.
